@@ -3,55 +3,85 @@ import Pose.Model.Lie
 # Batch-level model of the masked assignments in `so3_Exp.forward`, `so3_Jl`, `rxso3_Ws` (C01)
 
 The code computes boolean masks from the whole batch, evaluates the closed-form and the Taylor expressions on the
-masked sub-batches and scatters them into one output (`out[idx] = …; out[~idx] = …`).  `maskSelect` models that
-scatter; the `*Batch` functions follow the code's batch-level data flow.  `Proofs/Props/C01.lean` proves that they
+masked sub-batches ONLY and scatters them into one zero-initialised output (`out[idx] = f(theta[idx])`).  `maskTake` models the
+boolean-mask selection, `indexPut` the masked assignment; the `*Batch` functions follow the code's batch-level data flow
+(they are executed by the driver ops `c01.so3scatter` / `c01.wsscatter`).  `Proofs/Props/C01.lean` proves that they
 are the item-wise maps of the item-level models — for every mixture of regimes inside one batch.
 -/
 namespace PP
 variable {α : Type} [Scalar α]
 
-/-- `out[m] = a[m]; out[~m] = b[~m]` -/
-def maskSelect {β : Type} : List Bool → List β → List β → List β
-  | c :: m, x :: a, y :: b => (if c then x else y) :: maskSelect m a b
-  | _, _, _ => []
+/-- `xs[m]`: the sub-batch selected by a boolean mask (row order kept) -/
+def maskTake {β : Type} : List Bool → List β → List β
+  | true :: m, x :: xs => x :: maskTake m xs
+  | false :: m, _ :: xs => maskTake m xs
+  | _, _ => []
 
-/-- closed-form branch of `so3_Exp.forward` -/
-def so3ExpClosed (x : Vec3 α) : Quat α :=
-  let th := x.norm
-  Quat.mk' (x.smul (Scalar.sin (q 1 2 * th) / th)) (Scalar.cos (q 1 2 * th))
-/-- Taylor branch of `so3_Exp.forward` -/
-def so3ExpTaylor (x : Vec3 α) : Quat α :=
-  let th := x.norm
+/-- `out[m] = vals` (`index_put_` with a boolean mask): the masked positions receive the entries of `vals` in order,
+the others keep what `out` held -/
+def indexPut {β : Type} : List β → List Bool → List β → List β
+  | _ :: out, true :: m, v :: vals => v :: indexPut out m vals
+  | o :: out, true :: m, [] => o :: indexPut out m []
+  | o :: out, false :: m, vals => o :: indexPut out m vals
+  | out, [], _ => out
+  | [], _ :: _, _ => []
+
+/-- `(imag_factor, real_factor)` of the closed-form branch of `so3_Exp.forward`, from `θ` -/
+def so3ExpClosedFac (th : α) : α × α := (Scalar.sin (q 1 2 * th) / th, Scalar.cos (q 1 2 * th))
+/-- `(imag_factor, real_factor)` of the Taylor branch -/
+def so3ExpTaylorFac (th : α) : α × α :=
   let th2 := th * th
   let th4 := th2 * th2
-  Quat.mk' (x.smul (q 1 2 - q 1 48 * th2 + q 1 3840 * th4)) (k 1 - q 1 8 * th2 + q 1 384 * th4)
+  (q 1 2 - q 1 48 * th2 + q 1 3840 * th4, k 1 - q 1 8 * th2 + q 1 384 * th4)
 
-/-- `so3_Exp.forward` on a batch: `idx = theta > eps`, both expressions, scatter -/
+/-- `so3_Exp.forward` on a batch, as the code runs it: `theta` for the whole batch, `idx = theta > eps`, the two factor
+tensors start as zeros, the closed-form expression is evaluated ONLY on `theta[idx]` and written with `factor[idx] = …`, the
+Taylor expression only on `theta[~idx]` and written with `factor[~idx] = …`, finally `cat([input * imag_factor, real_factor])` -/
 def so3ExpBatch (eps : α) (xs : List (Vec3 α)) : List (Quat α) :=
-  maskSelect (xs.map fun x => Scalar.lt eps x.norm) (xs.map so3ExpClosed) (xs.map so3ExpTaylor)
+  let th := xs.map Vec3.norm
+  let idx := th.map fun t => Scalar.lt eps t
+  let nidx := idx.map not
+  let zeros : List (α × α) := th.map fun _ => (k 0, k 0)
+  let f1 := indexPut zeros idx ((maskTake idx th).map so3ExpClosedFac)
+  let f2 := indexPut f1 nidx ((maskTake nidx th).map so3ExpTaylorFac)
+  List.zipWith (fun x f => Quat.mk' (x.smul f.1) f.2) xs f2
 
-/-- the four condition masks of `rxso3_Ws` on a batch of `(θ, σ)` and the scattered coefficients `(A, B, C)` -/
+def wsC (p : α × α) : α := (Scalar.exp p.2 - k 1) / p.2
+def wsAB2 (p : α × α) : α × α :=
+  ((k 1 - Scalar.cos p.1) * (k 1 / (p.1 * p.1)), (p.1 - Scalar.sin p.1) / (p.1 * p.1 * p.1))
+def wsAB3 (p : α × α) : α × α :=
+  let scale := Scalar.exp p.2; let em1 := scale - k 1; let s2 := p.2 * p.2
+  ((p.2 * scale - em1) / s2, (q 1 2 * s2 * scale + em1 - p.2 * scale) / (s2 * p.2))
+/-- regime 4; the second argument is `C[condition4]`, read back from the already scattered `C` tensor as the code does -/
+def wsAB4 (p : α × α) (Cv : α) : α × α :=
+  let th := p.1; let sigma := p.2
+  let scale := Scalar.exp sigma; let em1 := scale - k 1; let s2 := sigma * sigma; let t2 := th * th
+  let a := scale * Scalar.sin th
+  let sh := Scalar.sin (q 1 2 * th)
+  let bm1 := em1 * Scalar.cos th - k 2 * (sh * sh)
+  let c := t2 + s2
+  ((a * sigma - bm1 * th) / (th * c), (Cv - (bm1 * sigma + a * th) / c) * (k 1 / t2))
+
+/-- `rxso3_Ws` on a batch of `(θ, σ)`, as the code runs it: `A`, `B`, `C` start as zeros; the four condition masks are computed
+from the whole batch; each regime's expression is evaluated only on its sub-batch and written by masked assignment, in the
+code's order (`C[~sl]`, cond1, cond2, `C[sl]`, cond3, cond4 — cond4 reads `C[condition4]`) -/
 def wsCoefBatch (eps : α) (ts : List (α × α)) : List (α × α × α) :=
   let sl := ts.map fun p => Scalar.lt eps (sabs p.2)
   let tl := ts.map fun p => Scalar.lt eps p.1
-  let C := maskSelect sl (ts.map fun p => (Scalar.exp p.2 - k 1) / p.2) (ts.map fun _ => k 1)
-  let c1 := ts.map fun _ => ((q 1 2 : α), (q 1 6 : α))
-  let c2 := ts.map fun p => ((k 1 - Scalar.cos p.1) * (k 1 / (p.1 * p.1)), (p.1 - Scalar.sin p.1) / (p.1 * p.1 * p.1))
-  let c3 := ts.map fun p =>
-    let scale := Scalar.exp p.2; let em1 := scale - k 1; let s2 := p.2 * p.2
-    ((p.2 * scale - em1) / s2, (q 1 2 * s2 * scale + em1 - p.2 * scale) / (s2 * p.2))
-  let c4 := ts.map fun p =>
-    let th := p.1; let sigma := p.2
-    let scale := Scalar.exp sigma; let em1 := scale - k 1; let s2 := sigma * sigma; let t2 := th * th
-    let Cv := em1 / sigma
-    let a := scale * Scalar.sin th
-    let sh := Scalar.sin (q 1 2 * th)
-    let bm1 := em1 * Scalar.cos th - k 2 * (sh * sh)
-    let c := t2 + s2
-    ((a * sigma - bm1 * th) / (th * c), (Cv - (bm1 * sigma + a * th) / c) * (k 1 / t2))
-  -- A[cond1], A[cond2], A[cond3], A[cond4] — the masks partition the batch
-  let AB := maskSelect sl (maskSelect tl c4 c3) (maskSelect tl c2 c1)
-  List.zipWith (fun ab c => (ab.1, ab.2, c)) AB C
+  let nsl := sl.map not
+  let c1 := List.zipWith (fun a b => !a && !b) sl tl
+  let c2 := List.zipWith (fun a b => !a && b) sl tl
+  let c3 := List.zipWith (fun a b => a && !b) sl tl
+  let c4 := List.zipWith (fun a b => a && b) sl tl
+  let C0 : List α := ts.map fun _ => k 0
+  let AB0 : List (α × α) := ts.map fun _ => (k 0, k 0)
+  let C1 := indexPut C0 nsl ((maskTake nsl ts).map fun _ => k 1)
+  let AB1 := indexPut AB0 c1 ((maskTake c1 ts).map fun _ => (q 1 2, q 1 6))
+  let AB2 := indexPut AB1 c2 ((maskTake c2 ts).map wsAB2)
+  let C2 := indexPut C1 sl ((maskTake sl ts).map wsC)
+  let AB3 := indexPut AB2 c3 ((maskTake c3 ts).map wsAB3)
+  let AB4 := indexPut AB3 c4 (List.zipWith wsAB4 (maskTake c4 ts) (maskTake c4 C2))
+  List.zipWith (fun ab c => (ab.1, ab.2, c)) AB4 C2
 
 
 /-! ## Objects, copies, failing calls (model of caller-held algebra LieTensors)
